@@ -2,11 +2,11 @@
 import os
 import random
 
-from . import streams_metric, streams_smoothinterp, cli, meshgen, pyio
+from . import streams_metric, streams_smoothinterp, streams_interppack, cli, meshgen, pyio
 from .common import Stream
 
 ID = 'C05'
-PROPS_MODULE = ['Refine.Props.C05', 'Refine.Props.C05Smooth']
+PROPS_MODULE = ['Refine.Props.C05', 'Refine.Props.C05Smooth', 'Refine.Props.C05Pack']
 
 
 # ---- regression for the defect repaired in /repo e210980 (known_findings: ref_metric_interpolate:tri-face-id-as-fourth-vertex):
@@ -94,7 +94,7 @@ ADAPT_LOGLIN_MPI = Stream('cli_adapt_loglin_mpi', cli.cli_harness, None, gen_ada
                           kind='oracle', np=[2, 4], nontrivial=lambda op, out: out.startswith('rc=0'), timeout=1800)
 
 STREAMS = [streams_metric.INTERP_KERNEL, streams_metric.INTERP_GRID, cli.ADAPT_METRIC, ADAPT_BIGID_MPI, ADAPT_LOGLIN, ADAPT_LOGLIN_MPI] + \
-          list(streams_smoothinterp.STREAMS)
+          list(streams_smoothinterp.STREAMS) + list(streams_interppack.STREAMS)
 
 EXPLANATION = (
     'Proved in Lean over the reals, about the executable model (Refine/Model/Metric.lean: interpolateNode = '
@@ -162,7 +162,38 @@ EXPLANATION = (
     'model on every record - every intermediate and the final (xyz, cell, part, bary, m, log m) bit for bit, the metric '
     'recomputed by the kernel of Model/Metric.lean from the dumped background (streams smooth_interp_fn, smooth_interp_run); '
     'the oracle states metric(v) = exp(L(x_v)) (1e-7) on every record and dump; cli_adapt_strip[_mpi]: `ref adapt` / `refmpi '
-    'adapt` on such strips, every output vertex.')
+    'adapt` on such strips, every output vertex. '
+    'Work package interppack (Refine.Props.C05Pack, model Refine/Model/InterpPack.lean): the per-slot arrays of REF_INTERP '
+    '(agent_hired, cell, part, FLAT bary with stride 4) across a renumbering of the vertex slots - ref_interp_pack as coded '
+    '(n read from the receptor ref_node, scratch copies so no monotonicity is needed, new[node] = copy[n2o[node]] for node < n, '
+    'cell = part = REF_EMPTY from n on, bary beyond 4n untouched, REIS on agents / hired agents), ref_interp_resize, '
+    'ref_interp_reset, ref_interp_remove, and the move ref_node_pack applies to every per-slot array (packSlots). Proved: '
+    'PackMap (o2n maps the valid slots onto [0,n), n2o is its inverse) holds for the pair of maps ref_node_stable_compact '
+    'computes (stableCompact_packMap, from the NodeIds model of C14: numberSlots / selectSlots); for EVERY pair of maps with '
+    'PackMap, after ref_interp_pack the record (cell, part, bary[4]) of new slot o2n[i] is the record of old slot i for every '
+    'valid i, slots >= n are reset, max unchanged (interpPack_aligned); every per-slot array of ref_node moves the same way '
+    '(packSlots_aligned), so the whole vertex state (xyz, cell, part, bary, metric) of new slot o2n[i] is that of old slot i '
+    '(pack_grid_aligned) and the C05 invariants Fresh / MetricAtPosition of C05Smooth are preserved vertex by vertex '
+    '(pack_preserves_fresh) and as the grid invariant GridWeak on every slot (pack_preserves_gridWeak); a successful '
+    'ref_interp_pack implies n <= max and every n2o[node] < max (interpPack_guard: the `if (n > max) ref_interp_resize(.., max)` '
+    'of the C text resizes to the size the arrays already have - latent, every caller resets to ref_node_max first). '
+    'Tie: harness h_interppack.c builds a tet brick, caches the background exactly as `ref adapt` does '
+    '(ref_grid_cache_background), writes recognisable records, deletes vertices (holes at the start / end / middle / random, '
+    'everything dead, nothing dead, n = max = 20), recycles slots with ref_node_add (LIFO free list), marks ghosts (owned-first '
+    'NON-monotone renumbering of ref_node_compact), resizes the interp arrays below / above the vertex count, hires agents, '
+    'then runs the real ref_node_stable_compact | ref_node_compact + ref_node_pack + ref_cell_pack + ref_geom_pack + '
+    'ref_interp_pack and dumps (global, xyz, cell, part, bary) of every valid slot before and after; refdrv interppack replays '
+    'NodeIds.add / remove / stableCompact / compact / pack + interpRemove / interpResize / interpPack / packSlots and prints the '
+    'same line (stream interppack_pack, diff); interppack_gridpack runs the real ref_grid_pack (ref_edge_rcm) and '
+    'ref_grid_stable_pack on the same inputs (oracle only). Oracle on both: the record found at a vertex POSITION (and, where '
+    'globals are not renumbered, at a global id) is the same before and after the pack, no slot >= n keeps a record. '
+    'ref_interp_from_part (NOT modelled in Lean) is run for real on 1, 2 and 3 ranks by harness h_interpfrompart.c (stream '
+    'interp_from_part_mpi, oracle only): tet brick distributed with ref_migrate_shufflin after a generated part array, '
+    'background cached (ref_grid_cache_background), then up to three rounds of ref_interp_from_part with generated part arrays '
+    '(random, everything to one rank, slabs, unchanged, rotated, a few strays) handed over as ref_migrate_to_balance does; after '
+    'every round every vertex is owned once and has a record, the rank the record points to stores a valid donor cell whose '
+    'GLOBAL vertex ids and weights are the ones the vertex had before, and the weights reproduce the vertex position from the '
+    'donor positions to 1e-12 (so a log-linear field re-interpolated there is exp(L(x_v)) by fresh_loglinear).')
 
 ASSUMPTIONS = [
     'theorems hold in exact real arithmetic about the model; IEEE rounding is modelled (Float instance, bit-compared), '
@@ -174,9 +205,17 @@ ASSUMPTIONS = [
     'vertex inside the cell (outside, the clipped weights reproduce the field at the clipped point: C11)',
     '2-D backgrounds sum three donors with weights clipped over four slots: the theorems for three donors assume '
     'w0+w1+w2 = 1 (the stored fourth weight is 0 for triangles; observed, not proved)',
-    'the donor search (ref_interp_locate_node / _between: walk, tree fallback), ref_interp_pack, ref_interp_from_part and '
-    'the migration alignment of (cell, bary, part) are NOT modelled: tied in process for the serial search '
-    '(metric_interp_grid) and end to end only (cli_adapt_metric; parallel runs are covered by the C04 streams)',
+    'ref_interp_from_part (the re-association of every vertex with its donor record by global id after ref_migrate_to_balance: '
+    'four blindsend stages, the neighbour fill of from_part, the re-identification of donor cells by their global vertex ids '
+    'after the donor grid itself was re-partitioned) and the migration alignment of (cell, bary, part) are NOT modelled in Lean '
+    '(no theorem): oracled in process on 1-3 ranks (interp_from_part_mpi) and end to end (cli_adapt_loglin_mpi, '
+    'cli_adapt_strip_mpi; parallel runs are also covered by the C04 streams)',
+    'interppack: the maps of ref_node_compact (owned first) and ref_edge_rcm (the one ref_grid_pack uses) enter '
+    'interpPack_aligned through the hypothesis PackMap - proved only for ref_node_stable_compact; compact is tied bit for bit '
+    '(interppack_pack), rcm is oracled on the real ref_grid_pack (interppack_gridpack; ref_edge_rcm requires every valid vertex '
+    'to have an edge - it writes o2n[-1] otherwise - the harness hangs a triangle on vertices without cells); '
+    'the uninitialised bary entries ref_interp_resize creates are a parameter (`junk`) no theorem depends on; the case where '
+    'ref_interp_pack would index outside its arrays (n > max or a valid slot >= max) is refused by harness and model alike (`oob`)',
     'ref_metric_interpolate (the blind-send whole-field transfer of refmpi) is modelled for its donor-side combination '
     '(interpolateDonor; proved equal to the per-vertex path: interpolateDonor_eq_node) and tied by running the real routine '
     'on one rank (interp_field ops); the blind-send exchange itself is C17 and covered here end to end only',
@@ -192,6 +231,6 @@ ASSUMPTIONS = [
     'smoothinterp: a vertex located by the fall-back OUTSIDE its donor cell (position outside the background) gets clipped '
     'weights: the record is "fresh" in the sense of the theorems, but metric = L(x) is not claimed there (the oracle skips '
     'vertices whose stored weights are not inside)',
-    'smoothinterp: ref_interp_resize, ref_interp_pack, ref_interp_from_part, the meshlink / EGADS siblings of the improvers '
+    'smoothinterp: ref_interp_from_part, the meshlink / EGADS siblings of the improvers '
     '(same loop, different ideal point and guards) and ref_smooth_tet_nso_step are not modelled',
 ]
